@@ -2,19 +2,33 @@
 //!
 //! Bounded exhaustive exploration of `klippa::subset_font` (DESIGN.md §3 C17):
 //!
-//! * fonts: every corpus font with `glyf`/`loca` outlines (static, variable, colour);
-//! * requests: for *tiny* fonts (glyphs + mapped characters + one unmapped character ≤ TINY items) every
-//!   subset of that item set; for the other fonts every subset of size ≤ k (k = 2 quick, 3 thorough) of a
-//!   per-font boundary set of ≤ 10 glyph ids and ≤ 10 characters (so requests by gid only, by unicode
-//!   only and mixed are all enumerated), plus the request "everything";
+//! * fonts: every corpus font with `glyf`/`loca` outlines (static, variable, colour; TTC members too);
+//! * requests, in a fixed order:
+//!   - *tiny* fonts (glyphs + mapped characters + one unmapped character ≤ 9 items quick / 12 thorough):
+//!     every subset of that item set;
+//!   - the other fonts: every subset of size ≤ k (k = 2 quick, 3 thorough) of a per-font boundary set of
+//!     ≤ 10 glyph ids and ≤ 10 characters (so requests by gid only, by unicode only and mixed are all
+//!     enumerated);
+//!   - the request "everything" (all glyph ids and all mapped characters);
+//!   - the singles layer: every glyph id alone and every mapped character alone;
 //! * flags: all 2^5 combinations of {NO_HINTING, RETAIN_GIDS, SET_OVERLAPS_FLAG, NOTDEF_OUTLINE,
-//!   GLYPH_NAMES};
+//!   GLYPH_NAMES} (singles layer: default only in quick, 3 combinations in thorough);
 //! * for every case the subset is produced, verified against the original, then subset *again* with the
 //!   same request (glyph ids translated through the derived old→new relation) and verified again.
+//! * two reductions, both reported in the evidence: a font with > 100 000 mapped characters
+//!   (AdobeBlank) gets k − 1 and a covering set of flag combinations; a font whose cmap puts a format-12
+//!   subtable under a BMP-only encoding record (autohint_cmap.ttf) gets glyph-id requests only.
 //!
 //! The oracle never looks at klippa's plan: the old→new glyph relation is derived from the two fonts
 //! (cmap of requested characters, identity under RETAIN_GIDS, positional component ids of paired
-//! composites, closed transitively; glyphs requested by id only are searched by equal observations).
+//! composites, closed transitively; glyphs requested by id only — and the components they reach — are
+//! searched by equal observations). Observations are made through skrifa on both fonts: unhinted pen
+//! stream, the outline loader's advance, glyph_metrics advance and left side bearing at sizes
+//! {unscaled, 16} × locations {default, each axis ±1, one mixed point}.
+//!
+//! Triage aids (not used by ./check): `C17_DEBUG=1 ./check C17 --replay f` prints cmap records, table
+//! sizes and per-character mappings of both subset levels; `C17_SCAN=<font file name>` lists failing
+//! single-glyph / single-character requests.
 
 use klippa::{subset_font, Plan, SubsetFlags, DEFAULT_LAYOUT_FEATURES};
 use rayon::prelude::*;
@@ -322,7 +336,17 @@ struct FontInfo {
     bch: Vec<u32>,
     tiny: bool,
     colr: bool,
+    /// more than HUGE_CMAP mapped characters (AdobeBlank maps 1.1 M characters to one glyph): every
+    /// request naming that glyph costs seconds, so the request space is reduced (see `requests_for`)
+    huge_cmap: bool,
+    /// the cmap has a format-12 subtable under a BMP-only encoding record ((3,1) or (0,3)), which the
+    /// OpenType specification reserves for format 4 (autohint_cmap.ttf). klippa, like hb-subset, refuses
+    /// to subset such a cmap and drops it; "requested characters stay mapped" is not judged on such a
+    /// font (glyph-id requests are).
+    nonconforming_cmap: bool,
 }
+
+const HUGE_CMAP: usize = 100_000;
 
 impl FontInfo {
     fn font(&self) -> FontRef<'_> {
@@ -411,7 +435,19 @@ fn load_font(name: String, bytes: Vec<u8>, index: u32, tier: Tier) -> Option<Fon
         bch: vec![],
         tiny: false,
         colr: font.colr().is_ok(),
+        huge_cmap: false,
+        nonconforming_cmap: font
+            .cmap()
+            .map(|cmap| {
+                cmap.encoding_records().iter().any(|r| {
+                    let bmp_only = (r.platform_id() == skrifa::raw::tables::cmap::PlatformId::Windows && r.encoding_id() == 1)
+                        || (r.platform_id() == skrifa::raw::tables::cmap::PlatformId::Unicode && r.encoding_id() == 3);
+                    bmp_only && r.subtable(cmap.offset_data()).map(|s| s.format() == 12).unwrap_or(false)
+                })
+            })
+            .unwrap_or(false),
     };
+    fi.huge_cmap = fi.cmap.len() > HUGE_CMAP;
     fi.reach0 = (0..num_glyphs)
         .map(|g| {
             let mut s = BTreeSet::new();
@@ -435,7 +471,7 @@ fn load_font(name: String, bytes: Vec<u8>, index: u32, tier: Tier) -> Option<Fon
 fn boundary_sets(font: &FontRef, fi: &mut FontInfo) {
     let n = fi.num_glyphs;
     let mut gl: Vec<u32> = vec![];
-    let mut push = |v: &mut Vec<u32>, g: u32| {
+    let push = |v: &mut Vec<u32>, g: u32| {
         if g < n && !v.contains(&g) && v.len() < 10 {
             v.push(g);
         }
@@ -598,53 +634,112 @@ fn subsets_up_to(n: usize, k: usize) -> Vec<Vec<usize>> {
     out
 }
 
-fn requests_for(fi: &FontInfo, tier: Tier) -> Vec<Request> {
+/// A request together with the flag sets it is run under and whether the subset is subset again.
+struct Planned {
+    req: Request,
+    flags: Vec<u16>,
+    resubset: bool,
+}
+
+fn requests_for(fi: &FontInfo, tier: Tier) -> Vec<Planned> {
+    let all_flags = flag_sets();
     // item = (is_char, value)
+    let use_chars = !fi.nonconforming_cmap;
     let (items, k): (Vec<(bool, u32)>, usize) = if fi.tiny {
         let mut it: Vec<(bool, u32)> = (0..fi.num_glyphs).map(|g| (false, g)).collect();
-        it.extend(
-            fi.cmap
-                .iter()
-                .filter(|(_, g)| **g < fi.num_glyphs)
-                .map(|(c, _)| (true, *c)),
-        );
-        // one unmapped character
-        let mut c = fi.cmap.keys().next().copied().unwrap_or(0x41);
-        while fi.cmap.contains_key(&c) {
-            c += 1;
+        if use_chars {
+            it.extend(
+                fi.cmap
+                    .iter()
+                    .filter(|(_, g)| **g < fi.num_glyphs)
+                    .map(|(c, _)| (true, *c)),
+            );
+            // one unmapped character
+            let mut c = fi.cmap.keys().next().copied().unwrap_or(0x41);
+            while fi.cmap.contains_key(&c) {
+                c += 1;
+            }
+            it.push((true, c));
         }
-        it.push((true, c));
         let k = it.len();
         (it, k)
     } else {
         let mut it: Vec<(bool, u32)> = fi.bgl.iter().map(|g| (false, *g)).collect();
-        it.extend(fi.bch.iter().map(|c| (true, *c)));
-        (it, tier.pick(2, 3))
+        if use_chars {
+            it.extend(fi.bch.iter().map(|c| (true, *c)));
+        }
+        // huge cmap: one size smaller
+        let k = if fi.huge_cmap { tier.pick(1, 2) } else { tier.pick(2, 3) };
+        (it, k)
     };
-    let mut out: Vec<Request> = subsets_up_to(items.len(), k)
-        .into_iter()
-        .map(|s| {
-            let mut r = Request {
-                gids: vec![],
-                unicodes: vec![],
-            };
-            for i in s {
-                if items[i].0 {
-                    r.unicodes.push(items[i].1)
-                } else {
-                    r.gids.push(items[i].1)
-                }
+    // huge cmap: a covering subset of the flag sets instead of all 32
+    let main_flags: Vec<u16> = if fi.huge_cmap {
+        tier.pick(
+            vec![0, F_RETAIN_GIDS],
+            vec![0, F_RETAIN_GIDS, F_NO_HINTING | F_SET_OVERLAPS | F_NOTDEF_OUTLINE | F_GLYPH_NAMES, 0x00D3],
+        )
+    } else {
+        all_flags.clone()
+    };
+    let mut seen: BTreeSet<Request> = BTreeSet::new();
+    let mut out: Vec<Planned> = vec![];
+    for s in subsets_up_to(items.len(), k) {
+        let mut r = Request {
+            gids: vec![],
+            unicodes: vec![],
+        };
+        for i in s {
+            if items[i].0 {
+                r.unicodes.push(items[i].1)
+            } else {
+                r.gids.push(items[i].1)
             }
-            r
-        })
-        .collect();
+        }
+        if seen.insert(r.clone()) {
+            out.push(Planned {
+                req: r,
+                flags: main_flags.clone(),
+                resubset: true,
+            });
+        }
+    }
     // "everything": all glyph ids and all mapped characters
     let all = Request {
         gids: (0..fi.num_glyphs).collect(),
-        unicodes: fi.cmap.keys().copied().collect(),
+        unicodes: if use_chars { fi.cmap.keys().copied().collect() } else { vec![] },
     };
-    if !out.contains(&all) {
-        out.push(all);
+    if seen.insert(all.clone()) {
+        out.push(Planned {
+            req: all,
+            flags: main_flags.clone(),
+            resubset: true,
+        });
+    }
+    // the singles layer: EVERY glyph id alone and EVERY mapped character alone (not just the boundary
+    // set) — default flags in quick; {default, RETAIN_GIDS, all five} and re-subsetting in thorough
+    if !fi.huge_cmap {
+        let single_flags = tier.pick(vec![0u16], vec![0, F_RETAIN_GIDS, 0x00D3]);
+        let mut singles: Vec<Request> = (0..fi.num_glyphs)
+            .map(|g| Request {
+                gids: vec![g],
+                unicodes: vec![],
+            })
+            .collect();
+        if use_chars {
+            singles.extend(fi.cmap.iter().filter(|(_, g)| **g < fi.num_glyphs).map(|(c, _)| Request {
+                gids: vec![],
+                unicodes: vec![*c],
+            }));
+        }
+        for r in singles {
+            if seen.insert(r.clone()) {
+                out.push(Planned {
+                    req: r,
+                    flags: single_flags.clone(),
+                    resubset: tier == Tier::Thorough,
+                });
+            }
+        }
     }
     out
 }
@@ -703,6 +798,19 @@ struct Viol {
     what: String,
 }
 
+/// (font, class) pairs whose detailed description has already been rendered: the textual diff is only
+/// produced for the first report of an identity (all occurrences are still counted as violations).
+static DESCRIBED: std::sync::Mutex<Option<HashSet<String>>> = std::sync::Mutex::new(None);
+
+/// every violation identity with its number of occurrences (written to the evidence: vcore prints only
+/// the first 25 distinct identities)
+static IDENTITIES: std::sync::Mutex<Option<BTreeMap<String, u64>>> = std::sync::Mutex::new(None);
+
+fn first_time(font: &str, class: &str) -> bool {
+    let mut g = DESCRIBED.lock().unwrap();
+    g.get_or_insert_with(HashSet::new).insert(format!("{font}|{class}"))
+}
+
 struct Outcome {
     /// old gid → new gid (first image) for every glyph the request names or reaches
     images: BTreeMap<u32, u32>,
@@ -745,7 +853,7 @@ fn verify(fi: &FontInfo, req: &Request, flags: u16, out: &[u8]) -> Result<Outcom
         ("hmtx", sub.hmtx().is_ok()),
         ("loca", sub.loca(None).is_ok()),
         ("glyf", sub.glyf().is_ok()),
-        ("cmap", sub.cmap().is_ok()),
+        // cmap is only needed when a requested character must map; that is judged below
     ] {
         if !ok {
             viol!("subset does not open", "table {tag} missing or unreadable");
@@ -788,13 +896,18 @@ fn verify(fi: &FontInfo, req: &Request, flags: u16, out: &[u8]) -> Result<Outcom
     }
 
     // ---- character map ----------------------------------------------------------------------
+    // Every derived pair remembers how it was derived (its provenance); the provenance is part of the
+    // violation class so that a cmap defect, a component-rewrite defect and a per-glyph data defect get
+    // different identities.
     let sub_cm = sub.charmap();
-    let mut pairs: BTreeSet<(u32, u32)> = BTreeSet::new();
+    let mut pairs: BTreeMap<(u32, u32), &'static str> = BTreeMap::new();
+    let mut char_of: BTreeMap<(u32, u32), u32> = BTreeMap::new();
     for c in &req_chars {
         if let Some(g) = fi.valid_target(*c) {
             match sub_cm.map(*c) {
                 Some(n) => {
-                    pairs.insert((g, n.to_u32()));
+                    pairs.entry((g, n.to_u32())).or_insert("requested character's glyph");
+                    char_of.entry((g, n.to_u32())).or_insert(*c);
                 }
                 None => viol!("requested character not mapped", "U+{c:04X} (original glyph {g}) has no mapping in the subset"),
             }
@@ -812,12 +925,12 @@ fn verify(fi: &FontInfo, req: &Request, flags: u16, out: &[u8]) -> Result<Outcom
     // ---- old → new relation -----------------------------------------------------------------
     if retain {
         for g in &expected {
-            pairs.insert((*g, *g));
+            pairs.entry((*g, *g)).or_insert("retained glyph id");
         }
     }
     let sub_ob = Observer::new(&sub, &fi.locs);
     let mut sub_obs: BTreeMap<u32, Obs> = BTreeMap::new();
-    let mut obs_of = |n: u32, sub_obs: &mut BTreeMap<u32, Obs>| -> Obs {
+    let obs_of = |n: u32, sub_obs: &mut BTreeMap<u32, Obs>| -> Obs {
         *sub_obs.entry(n).or_insert_with(|| sub_ob.observe(n))
     };
     let exempt = |o: u32| !notdef_outline && fi.reach0[o as usize];
@@ -828,38 +941,9 @@ fn verify(fi: &FontInfo, req: &Request, flags: u16, out: &[u8]) -> Result<Outcom
         }
         oo.metrics == so.metrics && (exempt(o) || oo.outline == so.outline)
     };
-    // glyphs requested by id only (and .notdef): *some* new glyph must carry equal observations
-    let have: BTreeSet<u32> = pairs.iter().map(|p| p.0).collect();
-    let mut by_search: Vec<u32> = req_gids.iter().copied().filter(|g| !have.contains(g)).collect();
-    if !have.contains(&0) && !by_search.contains(&0) {
-        by_search.insert(0, 0);
-    }
-    for g in by_search {
-        // try the conventional places first (cheap), then every glyph of the subset
-        let mut found = None;
-        if g == 0 && sub_n > 0 && equal(0, obs_of(0, &mut sub_obs)) {
-            found = Some(0);
-        }
-        if found.is_none() {
-            for n in 0..sub_n {
-                if equal(g, obs_of(n, &mut sub_obs)) {
-                    found = Some(n);
-                    break;
-                }
-            }
-        }
-        match found {
-            Some(n) => {
-                pairs.insert((g, n));
-            }
-            None => viol!(
-                "requested glyph has no image",
-                "no glyph of the subset ({sub_n} glyphs) has the observations of original glyph {g}"
-            ),
-        }
-    }
-    // close over composite components (positional)
-    let mut work: Vec<(u32, u32)> = pairs.iter().copied().collect();
+    // close the *definitive* pairs (cmap- and identity-derived) over composite components, positionally
+    let mut structure_differs = 0usize;
+    let mut work: Vec<(u32, u32)> = pairs.keys().copied().collect();
     while let Some((o, n)) = work.pop() {
         if n >= sub_n {
             continue;
@@ -871,19 +955,77 @@ fn verify(fi: &FontInfo, req: &Request, flags: u16, out: &[u8]) -> Result<Outcom
         if !notdef_outline && o == 0 {
             continue; // .notdef is emptied by design: its components need not be kept
         }
+        if !equal(o, obs_of(n, &mut sub_obs)) {
+            continue; // (o, n) itself is reported below; pairs derived from a wrong pair would only be noise
+        }
         match direct_components(&sub, n) {
             Some(nc) if nc.len() == oc.len() => {
                 for (a, b) in oc.iter().zip(nc.iter()) {
-                    if pairs.insert((*a, *b)) {
+                    if !pairs.contains_key(&(*a, *b)) {
+                        pairs.insert((*a, *b), "component of a kept composite");
                         work.push((*a, *b));
                     }
                 }
             }
-            Some(nc) => viol!(
-                "composite structure changed",
-                "original glyph {o} has components {oc:?}, subset glyph {n} has {nc:?}"
+            // a different shape is not itself forbidden by the statement; the outline comparison of
+            // (o, n) below is what judges it
+            _ => structure_differs += 1,
+        }
+    }
+    let _ = structure_differs;
+    // Glyphs requested by id only, .notdef, and the components they reach: the outputs do not say which
+    // new glyph is their image, so the oracle only demands that *some* glyph of the subset carries equal
+    // observations (several glyphs of a font may be indistinguishable — Ahem: almost all — so no
+    // component pairs are derived from such a match). Unclaimed candidates are preferred, purely to
+    // make the translated request of the second pass as faithful as possible.
+    let have: BTreeSet<u32> = pairs.keys().map(|p| p.0).collect();
+    let mut claimed: BTreeSet<u32> = pairs.keys().map(|p| p.1).collect();
+    let mut wanted: BTreeSet<u32> = BTreeSet::new();
+    fi.closure(0, &mut wanted);
+    for g in &req_gids {
+        fi.closure(*g, &mut wanted);
+    }
+    if !notdef_outline {
+        // components reached only through the emptied .notdef need not be kept
+        let mut only0 = BTreeSet::new();
+        fi.closure(0, &mut only0);
+        let mut others = BTreeSet::new();
+        for g in &req_gids {
+            if *g != 0 {
+                fi.closure(*g, &mut others);
+            }
+        }
+        for g in only0 {
+            if g != 0 && !others.contains(&g) {
+                wanted.remove(&g);
+            }
+        }
+    }
+    for g in wanted.iter().copied().filter(|g| !have.contains(g)) {
+        let mut best: Option<(u32, u32)> = None; // (score, n) — lower score is better
+        // the conventional place of .notdef first
+        let order: Vec<u32> = (0..sub_n).collect();
+        for n in order {
+            if !equal(g, obs_of(n, &mut sub_obs)) {
+                continue;
+            }
+            let score = claimed.contains(&n) as u32;
+            if best.map_or(true, |b| score < b.0) {
+                best = Some((score, n));
+            }
+            if score == 0 {
+                break;
+            }
+        }
+        match best {
+            Some((_, n)) => {
+                pairs.entry((g, n)).or_insert(if req_gids.contains(&g) || g == 0 { "glyph requested by id" } else { "component of a glyph requested by id" });
+                claimed.insert(n);
+            }
+            None => viol!(
+                if req_gids.contains(&g) || g == 0 { "requested glyph has no image" } else { "component of a requested glyph has no image" },
+                "no glyph of the subset ({sub_n} glyphs) has the observations of original glyph {g}"
             ),
-            None => viol!("composite structure changed", "subset glyph {n} unreadable"),
         }
     }
 
@@ -895,15 +1037,19 @@ fn verify(fi: &FontInfo, req: &Request, flags: u16, out: &[u8]) -> Result<Outcom
     let mut skipped_ref_err = 0;
     let mut h = Fnv::new();
     h.u64(sub_n as u64);
-    for (o, n) in &pairs {
+    for ((o, n), prov) in &pairs {
         let (o, n) = (*o, *n);
+        let via = match char_of.get(&(o, n)) {
+            Some(c) => format!(" (via U+{c:04X})"),
+            None => String::new(),
+        };
         images.entry(o).or_insert(n);
         h.u64(((o as u64) << 32) | n as u64);
         if retain && o != n {
-            viol!("glyph id not retained", "RETAIN_GIDS: original glyph {o} is glyph {n} in the subset");
+            viol!(format!("{prov}: glyph id not retained"), "RETAIN_GIDS: original glyph {o}{via} is glyph {n} in the subset");
         }
         if n >= sub_n {
-            viol!("image glyph id out of range", "original glyph {o} → {n}, subset has {sub_n} glyphs");
+            viol!(format!("{prov}: image glyph id out of range"), "original glyph {o}{via} → {n}, subset has {sub_n} glyphs");
             continue;
         }
         let oo = fi.obs[o as usize];
@@ -914,11 +1060,13 @@ fn verify(fi: &FontInfo, req: &Request, flags: u16, out: &[u8]) -> Result<Outcom
         let so = obs_of(n, &mut sub_obs);
         h.u64(so.metrics);
         if oo.metrics != so.metrics {
-            viol!(
-                "advance or side bearing differs",
-                "original glyph {o} vs subset glyph {n}: {}",
+            let class = format!("{prov}: advance or side bearing differs");
+            let d = if first_time(&fi.name, &class) {
                 describe_diff(&orig, o, &sub, n, &fi.locs, false)
-            );
+            } else {
+                "(details in the first report)".into()
+            };
+            viol!(class, "original glyph {o}{via} vs subset glyph {n}: {d}");
         }
         if exempt(o) {
             skipped_notdef += 1;
@@ -930,11 +1078,13 @@ fn verify(fi: &FontInfo, req: &Request, flags: u16, out: &[u8]) -> Result<Outcom
         }
         h.u64(so.outline);
         if oo.outline != so.outline {
-            viol!(
-                "outline differs",
-                "original glyph {o} vs subset glyph {n}: {}",
+            let class = format!("{prov}: outline differs");
+            let d = if first_time(&fi.name, &class) {
                 describe_diff(&orig, o, &sub, n, &fi.locs, true)
-            );
+            } else {
+                "(details in the first report)".into()
+            };
+            viol!(class, "original glyph {o}{via} vs subset glyph {n}: {d}");
         }
     }
     if !viols.is_empty() {
@@ -968,6 +1118,7 @@ struct Local {
     skipped_ref_err: u64,
     resubsets: u64,
     errs: u64,
+    font_ns: BTreeMap<usize, u64>,
 }
 
 fn case_json(fi: &FontInfo, req: &Request, flags: u16) -> Value {
@@ -977,6 +1128,7 @@ fn case_json(fi: &FontInfo, req: &Request, flags: u16) -> Value {
 fn report(run: &Run, fi: &FontInfo, req: &Request, flags: u16, stage: &str, v: &Viol) {
     let short = fi.name.rsplit('/').next().unwrap_or(&fi.name);
     let id = format!("{stage}{} [{}]", v.class, short);
+    IDENTITIES.lock().unwrap().get_or_insert_with(BTreeMap::new).entry(id.clone()).and_modify(|n| *n += 1).or_insert(1u64);
     let what = format!(
         "{} gids={:?} unicodes={:04X?} flags={}: {}",
         fi.name,
@@ -988,7 +1140,7 @@ fn report(run: &Run, fi: &FontInfo, req: &Request, flags: u16, stage: &str, v: &
     run.violation(&id, &what, case_json(fi, req, flags));
 }
 
-fn check_case(run: &Run, fi: &FontInfo, req: &Request, flags: u16, l: &mut Local) {
+fn check_case(run: &Run, fi: &FontInfo, req: &Request, flags: u16, resubset: bool, l: &mut Local) {
     l.evals += 1;
     let orig = fi.font();
     l.subset_calls += 1;
@@ -1038,6 +1190,9 @@ fn check_case(run: &Run, fi: &FontInfo, req: &Request, flags: u16, l: &mut Local
     }
 
     // ---- subset the subset again with the same request ------------------------------------------
+    if !resubset {
+        return;
+    }
     let sub = match FontRef::new(&out) {
         Ok(f) => f,
         Err(_) => return,
@@ -1094,6 +1249,58 @@ fn check_case(run: &Run, fi: &FontInfo, req: &Request, flags: u16, l: &mut Local
 // body
 // ---------------------------------------------------------------------------------------------
 
+/// Extra output for triage (`C17_DEBUG=1 ./check C17 --replay file`).
+fn debug_dump(fi: &FontInfo, req: &Request, flags: u16) {
+    let orig = fi.font();
+    let dump_cmap = |f: &FontRef, label: &str| {
+        if let Ok(cmap) = f.cmap() {
+            for r in cmap.encoding_records() {
+                let fmt = r.subtable(cmap.offset_data()).map(|s| format!("{}", s.format())).unwrap_or("?".into());
+                println!("  {label} cmap record platform {:?} encoding {} format {fmt}", r.platform_id(), r.encoding_id());
+            }
+        } else {
+            println!("  {label}: no cmap");
+        }
+    };
+    dump_cmap(&orig, "original");
+    let Ok(Ok(out)) = run_subset(&orig, &req.gids, &req.unicodes, flags) else {
+        println!("  subset failed");
+        return;
+    };
+    let sub = FontRef::new(&out).unwrap();
+    dump_cmap(&sub, "subset");
+    println!("  original glyphs {} subset glyphs {:?}", fi.num_glyphs, sub.maxp().map(|m| m.num_glyphs()));
+    let tags = |f: &FontRef| f.table_directory.table_records().iter().map(|r| format!("{}:{}", r.tag(), r.length())).collect::<Vec<_>>().join(" ");
+    println!("  original tables {}", tags(&orig));
+    println!("  subset   tables {}", tags(&sub));
+    let mut n = 0;
+    for c in &req.unicodes {
+        let o = fi.cmap.get(c).copied();
+        let s = sub.charmap().map(*c).map(|g| g.to_u32());
+        if o != s && n < 20 {
+            println!("  U+{c:04X}: original {o:?} subset {s:?}");
+            n += 1;
+        }
+    }
+    // second level with the same characters (gids as given under RETAIN_GIDS only)
+    if let Ok(Ok(out2)) = run_subset(&sub, &[], &req.unicodes, flags) {
+        let sub2 = FontRef::new(&out2).unwrap();
+        dump_cmap(&sub2, "subset2");
+        println!("  subset2 glyphs {:?}", sub2.maxp().map(|m| m.num_glyphs()));
+        for c in req.unicodes.iter().take(24) {
+            println!(
+                "  U+{c:04X}: original {:?} subset {:?} subset2 {:?}",
+                fi.cmap.get(c),
+                sub.charmap().map(*c).map(|g| g.to_u32()),
+                sub2.charmap().map(*c).map(|g| g.to_u32())
+            );
+        }
+        if let Ok(cmap) = sub.cmap() {
+            println!("  subset cmap bytes: {}", hex(cmap.offset_data().as_bytes()));
+        }
+    }
+}
+
 fn load_corpus(tier: Tier) -> Vec<FontInfo> {
     let files = corpus_fonts();
     let mut jobs: Vec<(String, Vec<u8>, u32)> = vec![];
@@ -1138,11 +1345,35 @@ fn body(run: &Run, replay: Option<&Value>) {
         };
         let flags = case["flags"].as_u64().unwrap_or(0) as u16;
         let mut l = Local::default();
-        check_case(run, fi, &req, flags, &mut l);
+        check_case(run, fi, &req, flags, true, &mut l);
+        if std::env::var("C17_DEBUG").is_ok() {
+            debug_dump(fi, &req, flags);
+        }
         return;
     }
 
     let fonts = load_corpus(tier);
+    // triage aid (never used by ./check): C17_SCAN=<font file name> subsets every single glyph id and
+    // every single character of that font with default flags and prints the failures
+    if let Ok(name) = std::env::var("C17_SCAN") {
+        for fi in fonts.iter().filter(|f| f.name.ends_with(&name)) {
+            for g in 0..fi.num_glyphs {
+                match run_subset(&fi.font(), &[g], &[], 0) {
+                    Ok(Ok(_)) => {}
+                    Ok(Err(e)) => println!("scan {} gid {g}: Err({e})", fi.name),
+                    Err(p) => println!("scan {} gid {g}: panic {}", fi.name, p.message),
+                }
+            }
+            for (c, g) in fi.cmap.iter() {
+                match run_subset(&fi.font(), &[], &[*c], 0) {
+                    Ok(Ok(_)) => {}
+                    Ok(Err(e)) => println!("scan {} U+{c:04X} (gid {g}): Err({e})", fi.name),
+                    Err(p) => println!("scan {} U+{c:04X}: panic {}", fi.name, p.message),
+                }
+            }
+        }
+        std::process::exit(0);
+    }
     let flags = flag_sets();
     run.bound("flag_sets", json!(flags.iter().map(|f| flag_names(*f)).collect::<Vec<_>>()));
     run.bound("sizes", json!(["unscaled", 16]));
@@ -1151,9 +1382,11 @@ fn body(run: &Run, replay: Option<&Value>) {
     run.bound("tiny_font_item_limit", json!(tier.pick(TINY_ITEMS_QUICK, TINY_ITEMS_THOROUGH)));
     run.bound("boundary_glyphs_max", json!(10));
     run.bound("boundary_chars_max", json!(10));
+    run.bound("singles_layer", json!(tier.pick("every glyph id alone and every mapped character alone, default flags", "every glyph id alone and every mapped character alone × {DEFAULT, RETAIN_GIDS, all five flags}, each subset again")));
+    run.bound("huge_cmap_rule", json!(format!("fonts with more than {HUGE_CMAP} mapped characters: subset size one smaller, a covering set of flag combinations, no singles layer")));
 
     // tasks in a fixed order: font (by path) → request → flag set
-    let mut tasks: Vec<(usize, Request, u16)> = vec![];
+    let mut tasks: Vec<(usize, Request, u16, bool)> = vec![];
     let mut font_rows = vec![];
     for (i, fi) in fonts.iter().enumerate() {
         let reqs = requests_for(fi, tier);
@@ -1161,11 +1394,13 @@ fn body(run: &Run, replay: Option<&Value>) {
             "font": fi.name, "glyphs": fi.num_glyphs, "chars": fi.cmap.len(), "axes": fi.axes, "colr": fi.colr,
             "long_metrics": fi.num_long_metrics, "composites": fi.comps.iter().filter(|c| !c.is_empty()).count(),
             "tiny_all_subsets": fi.tiny, "boundary_gids": fi.bgl, "boundary_chars": fi.bch,
-            "requests": reqs.len(), "ref_draw_errors": fi.obs.iter().filter(|o| !o.ok).count(),
+            "requests": reqs.len(), "cases": reqs.iter().map(|p| p.flags.len()).sum::<usize>(),
+            "ref_draw_errors": fi.obs.iter().filter(|o| !o.ok).count(),
+            "huge_cmap_reduced_space": fi.huge_cmap, "nonconforming_cmap_no_char_requests": fi.nonconforming_cmap,
         }));
-        for r in reqs {
-            for f in &flags {
-                tasks.push((i, r.clone(), *f));
+        for p in reqs {
+            for f in &p.flags {
+                tasks.push((i, p.req.clone(), *f, p.resubset));
             }
         }
     }
@@ -1177,21 +1412,23 @@ fn body(run: &Run, replay: Option<&Value>) {
     run.count("cases", tasks.len() as u64);
 
     // determinism self-test: first 8 cases twice
-    for (i, r, f) in tasks.iter().take(8) {
+    for (i, r, f, _) in tasks.iter().take(8) {
         let a = run_subset(&fonts[*i].font(), &r.gids, &r.unicodes, *f).ok().and_then(|x| x.ok());
         let b = run_subset(&fonts[*i].font(), &r.gids, &r.unicodes, *f).ok().and_then(|x| x.ok());
         if a != b {
             run.machinery_error("subset_font is not deterministic on a repeated call");
         }
     }
-    for (i, r, f) in tasks.iter().step_by((tasks.len() / 5).max(1)).take(6) {
+    for (i, r, f, _) in tasks.iter().step_by((tasks.len() / 5).max(1)).take(6) {
         run.sample(case_json(&fonts[*i], r, *f));
     }
 
     let merged = tasks
         .par_iter()
-        .fold(Local::default, |mut l, (i, r, f)| {
-            check_case(run, &fonts[*i], r, *f, &mut l);
+        .fold(Local::default, |mut l, (i, r, f, rs)| {
+            let t0 = std::time::Instant::now();
+            check_case(run, &fonts[*i], r, *f, *rs, &mut l);
+            *l.font_ns.entry(*i).or_default() += t0.elapsed().as_nanos() as u64;
             l
         })
         .reduce(Local::default, |mut a, b| {
@@ -1205,8 +1442,22 @@ fn body(run: &Run, replay: Option<&Value>) {
             a.skipped_ref_err += b.skipped_ref_err;
             a.resubsets += b.resubsets;
             a.errs += b.errs;
+            for (k, v) in b.font_ns {
+                *a.font_ns.entry(k).or_default() += v;
+            }
             a
         });
+    let ids = IDENTITIES.lock().unwrap().clone().unwrap_or_default();
+    run.extra("violation_identities", json!(ids));
+    // cpu time per font (informational; not used for any decision)
+    run.extra(
+        "cpu_seconds_per_font",
+        json!(merged
+            .font_ns
+            .iter()
+            .map(|(i, ns)| (fonts[*i].name.clone(), json!((*ns as f64 / 1e7).round() / 100.0)))
+            .collect::<serde_json::Map<String, Value>>()),
+    );
     run.evals(merged.evals);
     run.trans(merged.subset_calls);
     run.observe_many(&merged.all, &merged.nontrivial);
